@@ -692,6 +692,7 @@ impl CoreRun {
         }
         // ---- observations of uncached per-chunk results: rule_fun and chunk_fun monitors ----
         let mut fun_fail: Vec<(String, String, Value)> = vec![];
+        let mut surround_obs = 0u64;
         for (misses, groups, who) in [(&miss_f, &groups_f, "fresh"), (&miss_g, &groups_g, "reused")] {
             for (ci, grp) in with_hull.iter().zip(groups.iter()) {
                 if !misses.contains(&ci.first_tok_start) {
@@ -715,7 +716,11 @@ impl CoreRun {
                             json!({"kind":"history","target":"core","dialect":format!("{:?}", self.dialect),"user_words":self.user_words,"ops":[{"op":"cfg","base":"none","set":serde_json::to_value(&self.g.group.config).unwrap()},{"op":"lint","fe":o.fe,"text":o.text},{"op":"lint","fe":fe,"text":text}]}),
                         ));
                     }
-                    Some(_) => {}
+                    Some(o) => {
+                        if o.text != text {
+                            surround_obs += 1;
+                        }
+                    }
                     None => {
                         w.table.insert(tkey, Obs { val: val.clone(), fe: fe.to_string(), text: text.to_string() });
                     }
@@ -860,6 +865,7 @@ impl CoreRun {
                 rep.fail(&class, what, input);
             }
             rep.monitor("rule_fun:uncached_chunk_results_observed", (miss_f.len() + miss_g.len()) as u64);
+            rep.monitor("rule_fun:uncached_results_of_a_chunk_seen_before_in_another_document(same characters, tokens, configuration)", surround_obs);
             rep.monitor("tok_hash:chunks_checked", with_hull.len() as u64);
             let pre_line = lints_line(w, &spre_g, 0).unwrap_or_default();
             let post_line = lints_line(w, &spost_g, 0).unwrap_or_default();
@@ -2199,6 +2205,48 @@ fn gen_history(r: &mut Rng, w: &World, target: &str) -> History {
     }
     History { target: target.into(), dialect: r.s(&["American", "American", "British", "Canadian", "Australian"]).to_string(), user_words, ops }
 }
+/// rule_fun on the REAL rules: the same clause (same characters, same tokens — a closing quote keeps its twin_loc because the
+/// opening quote stays at the same token index) in different SURROUNDINGS: directly after an opening quote / bracket, or after
+/// another chunk terminator without a space (so the previous chunk ends in a comma, not a quote), followed by a quote, a
+/// bracket, a comma, nothing.  A pattern rule that peeks at the source outside its chunk (the character before the match)
+/// answers differently for the same cache key: on one long-lived linter the second document gets the first one's cached
+/// lints (oracle reused_ne_fresh), and the freshly built linter of every step feeds the rule_fun table with the uncached
+/// chunk-relative result of each embedding (oracle rule_not_function with the concrete pair of documents).
+fn surround_history(r: &mut Rng, target: &str) -> History {
+    let x0 = r.s(&["baited breath", "on accident", "case and point", "could of been", "an other thing", "alot of them", "more then that", "piece of mind", "for all intensive purposes", "wrod teh"]);
+    let x: String = if r.chance(1, 4) { x0.split(' ').map(|wd| recase(r, wd)).collect::<Vec<_>>().join(" ") } else { x0.to_string() };
+    let p = r.s(&["He wrote", "She said", "They call it", "we waited with", "So"]);
+    let s_ = r.s(&[" there.", " again", ".", "", " today, twice."]);
+    let filler = r.s(&["no", "well", "yes", "so"]);
+    let sep = r.s(&[",", ",", ";", ":"]);
+    let mut docs: Vec<String> = vec![
+        format!("{p} \"{x}\"{s_}"),
+        format!("{p} \"{filler}{sep}{x}\"{s_}"),
+        format!("{p} \u{201c}{x}\u{201d}{s_}"),
+        format!("{p} \u{201c}{filler}{sep}{x}\u{201d}{s_}"),
+        format!("{p} ({x}){s_}"),
+        format!("{p} ({filler}{sep}{x}){s_}"),
+        format!("{p} [{x}]{s_}"),
+        format!("{p} '{x}'{s_}"),
+        format!("{p} {filler}{sep}{x},{s_}"),
+        format!("{p} \"{x},{s_}"),
+        format!("{p} \"{filler}{sep}{x},{s_}"),
+        format!("{p}{sep}{x}\"{s_}"),
+        format!("{p} {x}{s_}"),
+        format!("\"{x}\""),
+        format!("\"{filler}{sep}{x}\""),
+    ];
+    // a random order, a subset, and the first document once more at the end (all hits by then)
+    for i in (1..docs.len()).rev() {
+        let j = r.below(i + 1);
+        docs.swap(i, j);
+    }
+    docs.truncate(r.range(5, 11));
+    let first = docs[0].clone();
+    docs.push(first);
+    let ops = docs.into_iter().map(|text| Op::Lint { fe: (if r.chance(1, 5) { "markdown" } else { "plain" }).to_string(), text }).collect();
+    History { target: target.into(), dialect: r.s(&["American", "British"]).to_string(), user_words: vec![], ops }
+}
 fn gen_batch(r: &mut Rng, n: usize, with_user_words: bool) -> Batch {
     let pool = clause_pool(r);
     let mut docs = vec![];
@@ -2432,6 +2480,17 @@ fn main() {
     for _ in 0..args.scale(3, 12) {
         let h = colliding_cfg_history(&mut r, &w);
         run_core(&mut w, &mut rep, &h);
+    }
+    // the same clause in different surroundings (rule_fun on the real rules; see surround_history)
+    for i in 0..args.scale(16, 120) {
+        if i % 4 == 3 {
+            let h = surround_history(&mut r, "wasm");
+            run_wasm(&mut w, &mut rep, &h);
+        } else {
+            let h = surround_history(&mut r, "core");
+            run_core(&mut w, &mut rep, &h);
+        }
+        rep.count("histories:same_clause_in_different_surroundings");
     }
     for _ in 0..args.scale(50, 300) {
         let h = gen_history(&mut r, &w, "wasm");
